@@ -27,7 +27,7 @@ SIGNED = ["feat_con_cp_curvature"]
 ALL = sorted(BINARY + FRACTION + MAGNITUDE + SIGNED)
 #: does not look at the fit at all (number of approach samples; NaN only for a curve without any settings)
 FIT_INDEPENDENT = ["feat_bin_size"]
-WHICH = ["all", "binary", "continuous", ["continuous"], ["binary", "continuous"]]
+WHICH = ["all", "binary", "continuous", ["continuous"], ["binary", "continuous"], ["continuous", "binary"]]
 UNKNOWN = ["feat_con_unknown", "feat_bin_", "feat_con_apr_SUM", "contact_point", "is_fitted", "compute_features",
            "get_feature_names", "rate_apr_bumps"]
 EDIT_KEYS = ["weight_cp", "range_x", "gcf_k", "method", "model_key", "range_type", "segment"]
@@ -39,7 +39,7 @@ RULE = ("Hypothesis draws (a) fitted cases: curve = synthetic (5 models, 60-1500
         "maximum approach force zero/negative) or recorded good / bad JPK curve with the default preprocessing; "
         "fit = any shipped model, approach (sometimes retract) segment, contact point free, or fixed at a chosen "
         "sample near the start / the end / inside, or fixed outside the data range; request = feature subset in "
-        "arbitrary order x which_type in 5 spellings (+ an unknown name); power-of-two and arbitrary force scale "
+        "arbitrary order x which_type in 6 spellings (+ an unknown name); power-of-two and arbitrary force scale "
         "factor; retract perturbation (values / spikes / NaN / constant). (b) unfitted cases: fresh, preprocessed "
         "(5 pipelines), fitted-then-setting-edited (7 keys), fitted-then-preprocessed, unsuccessful fit (range with "
         "too few points). non-trivial = (a) the fit succeeded and >= 1 continuous feature is finite, (b) the state "
@@ -55,13 +55,16 @@ ASSUMPTIONS = [
     "x unit (1/m resp. m) but no force unit",
     "power-of-two factors (2^-40..2^60) must give bit-identical features: scaling by 2^j commutes exactly with "
     "+, -, *, /, sqrt, gaussian filtering and LAPACK lstsq in the absence of under/overflow",
-    "arbitrary factors: rtol 1e-9 (atol 1e-12), asserted only when the residuals are noise dominated (synthetic "
+    "arbitrary factors: rtol 1e-9 (atol 1e-13: log(1 + v) of a tiny v carries an absolute error of 20 x 1.1e-16), asserted only when the residuals are noise dominated (synthetic "
     "noise >= 1e-3 or recorded curve): for a noise-free exact fit the residuals are rounding noise and are "
     "legitimately rescrambled by a non-dyadic factor",
     "the scaled curve is a deep copy whose force / fit / fit residuals columns are multiplied and whose "
     "baseline and modulus parameters (E, E_S, E_L) and chi_sqr are scaled; it is not refitted",
     "feat_bin_size does not depend on the fit (number of approach samples >= 600); in unfitted states it may be "
     "0, 1 or NaN, all other features must be NaN",
+    "counting features are compared with their definitions (docstrings, 1 = good): feat_bin_size = approach has >= "
+    "600 samples, feat_bin_cp_position = contact point inside [min x, max x] of the approach, feat_con_apr_size = "
+    "fraction of approach samples at or beyond the contact point (x <= cp)",
     "request semantics: names without duplicates, >= 1 name (names=[] and duplicates are not specified); unknown "
     "= any string that is not one of the 15 feature names, also names of other attributes of the class",
     "recorded curves labelled bad may be rejected by preprocessing or fitting (skipped); fits that raise are "
@@ -296,14 +299,15 @@ def request(idnt, req, ctx, desc):
         full, fnames = IF.compute_features(idnt, ret_names=True)
     if not guard.ok:
         return None
-    d = dict(desc, which_type=str(req["which_type"]), names="given" if req["names"] is not None else "none")
-    ctx.check(list(fnames) == ALL, "names-order", dict(d, request="full"), f"default request returned names {fnames}")
+    d = {"which_type": str(req["which_type"]), "names": "given" if req["names"] is not None else "none"}
+    ctx.check(list(fnames) == ALL, "names-order", {"which_type": "all", "names": "none"},
+              f"default request returned names {fnames}")
     ctx.check(isinstance(full, np.ndarray) and full.dtype == np.float64 and full.shape == (len(ALL),),
               "result-type", d, f"full result {type(full).__name__} dtype={getattr(full, 'dtype', None)} "
                                 f"shape={getattr(full, 'shape', None)}")
     want = expected_names(req)
     names_arg = None if req["names"] is None else list(req["names"])
-    with ctx.no_raise("compute-raises", dict(d, request="subset")) as guard:
+    with ctx.no_raise("compute-raises", dict(desc, request="subset")) as guard:
         vals, names = IF.compute_features(idnt, which_type=req["which_type"], names=names_arg, ret_names=True)
         vals_only = IF.compute_features(idnt, which_type=req["which_type"], names=names_arg)
     if guard.ok:
@@ -363,14 +367,22 @@ def check_fitted(case, ctx):
         ctx.note_case(case, nontrivial=False, classes=classes + ["fit_raised_" + type(box["exc"]).__name__])
         return
     if not idnt.fit_properties.get("success"):
-        ctx.note_case(case, nontrivial=False, classes=classes + ["fit_unsuccessful"])
+        # e.g. recorded bad curves whose approach segment has a single sample: an unfitted state
+        ctx.note_case(case, nontrivial=idnt.fit_properties.get("success") is False,
+                      classes=classes + ["fit_unsuccessful", "state_unsuccessful_natural"])
+        unfitted_oracle(idnt, "unsuccessful", case["req"], ctx, {"state": "unsuccessful", "kind": kind})
         return
     seg0 = idnt["segment"] == 0
     napp = int(seg0.sum())
     ya = idnt["force"][seg0]
     ymax = float(np.max(ya)) if napp else float("nan")
+    xa = idnt["tip position"][seg0]
+    if napp < 2 or not xa[0] > xa[-1]:
+        # datax_apr states its precondition with an assert ("Approach from large distances towards lower")
+        ctx.note_case(case, nontrivial=False, classes=classes + ["approach_not_descending_skipped"])
+        return
     cpc = cp_class(idnt)
-    desc = {"cp": cpc, "shift": mod["shift"], "segment": fit["segment"], "kind": kind}
+    desc ={"cp": cpc, "shift": mod["shift"], "segment": fit["segment"], "kind": kind}
     before = fitgen.snapshot(idnt)
     full = request(idnt, case["req"], ctx, desc)
     classes += ["cp_" + cpc, "short" if napp < 600 else "long",
@@ -386,6 +398,16 @@ def check_fitted(case, ctx):
     ctx.check(fitgen.snapshot(idnt) == before, "curve-modified", desc,
               "settings, results, columns or rating of the curve changed while computing features")
     value_oracle(full, ymax, ctx, desc)
+    # the three counting features against their one-line definitions
+    cp = idnt.fit_properties["params_fitted"]["contact_point"].value
+    want = {"feat_bin_size": float(napp >= 600),
+            "feat_bin_cp_position": float(np.min(xa) <= cp <= np.max(xa)),
+            "feat_con_apr_size": float(np.sum(xa <= cp)) / napp}
+    for name, w in want.items():
+        v = full[ALL.index(name)]
+        ctx.check(abs(v - w) <= 1e-12, "count-feature-definition", dict(desc, feature=name),
+                  f"{name} = {v!r}, definition gives {w!r} (approach samples {napp}, contact point {cp!r}, "
+                  f"x range [{np.min(xa)!r}, {np.max(xa)!r}])")
 
     from nanite.rate.features import IndentationFeatures as IF
     # (4) common positive factor on force, fit, residuals
@@ -406,10 +428,10 @@ def check_fitted(case, ctx):
         if guard.ok:
             ctx.event("arbitrary_scale_asserted")
             for n, a, b in zip(ALL, full, f3):
-                ok = same([a], [b]) or (np.isfinite(a) and np.isfinite(b) and abs(a - b) <= 1e-9 * abs(a) + 1e-12)
-                if np.isfinite(a) and np.isfinite(b) and a != 0:
+                ok = same([a], [b]) or (np.isfinite(a) and np.isfinite(b) and abs(a - b) <= 1e-9 * abs(a) + 1e-13)
+                if ok and np.isfinite(a) and abs(a) > 1e-6:
                     ctx.extra["max_rel_change_arbitrary_scale"] = max(
-                        ctx.extra.get("max_rel_change_arbitrary_scale", 0.0), float(abs(a - b) / abs(a)) if ok else 0.0)
+                        ctx.extra.get("max_rel_change_arbitrary_scale", 0.0), float(abs(a - b) / abs(a)))
                 ctx.check(ok, "scale-arbitrary-changes-feature", dict(desc, feature=n),
                           f"{n}: {a!r} -> {b!r} after multiplying force, fit, residuals by {sa!r}")
     # (5) retract samples are irrelevant
@@ -435,7 +457,7 @@ def check_unfitted(case, ctx):
             pass
         elif state == "preprocessed":
             idnt.apply_preprocessing(list(case["pre"]))
-            classes.append("pre_" + ("+".join(p.split("_")[-2] + "_" + p.split("_")[-1] for p in case["pre"]) or "none"))
+            classes.append(f"pipeline{PRE_SETS.index(case['pre'])}")
         else:
             idnt.apply_preprocessing(list(fitgen.DEFAULT_PRE if src["kind"] == "recorded" else
                                           ["compute_tip_position"]))
@@ -472,8 +494,13 @@ def check_unfitted(case, ctx):
     ctx.note_case(case, nontrivial=reached, classes=classes + (["reached"] if reached else ["state_not_reached"]))
     if not reached:
         return
-    before = fitgen.snapshot(idnt)
+    unfitted_oracle(idnt, state, case["req"], ctx, desc)
+
+
+def unfitted_oracle(idnt, state, req, ctx, desc):
+    """(6) no successful fit: no exception, every fit-dependent feature NaN"""
     from nanite.rate.features import IndentationFeatures as IF
+    before = fitgen.snapshot(idnt)
     with ctx.no_raise("unfitted-raises", desc) as guard:
         full = IF.compute_features(idnt)
     if not guard.ok:
@@ -486,7 +513,7 @@ def check_unfitted(case, ctx):
                 ctx.check(np.isnan(v), "unfitted-not-nan", d, f"{name} = {v!r} for a curve without any settings")
         else:
             ctx.check(np.isnan(v), "unfitted-not-nan", d, f"{name} = {v!r} without a successful fit ({state})")
-    request(idnt, case["req"], ctx, desc)
+    request(idnt, req, ctx, desc)
     ctx.check(fitgen.snapshot(idnt) == before, "curve-modified", desc,
               "settings, results, columns or rating of the curve changed while computing features")
 
@@ -499,8 +526,8 @@ def check_case(case, ctx):
 
 
 def run(ctx):
-    ctx.hypothesis(st_unfitted(), check_case, ctx.scale(320, 12800), label="unfitted")
-    ctx.hypothesis(st_fitted(), check_case, ctx.scale(1280, 51200), label="fitted")
+    ctx.hypothesis(st_unfitted(), check_case, ctx.scale(480, 19200), label="unfitted")
+    ctx.hypothesis(st_fitted(), check_case, ctx.scale(1920, 76800), label="fitted")
 
 
 def replay(case, ctx):
